@@ -343,6 +343,37 @@ def describe_exit(rc):
     return "exit %d" % rc
 
 
+def run_miri(ops, timeout=3600, env_extra=None):
+    """Run a batch script (list of op dicts, 'quit' appended) in the driver under Miri (cargo +nightly miri run).  Rule loading costs many
+    minutes, so this is for the thorough tier only.  Tree Borrows is used because Stacked Borrows objects to the XML DOM dependency
+    (sxd-document raw.rs) on the first parse, which is outside the repository.  Returns (list of result dicts, stderr text, return code or None on timeout)."""
+    os.makedirs(WORK, exist_ok=True)
+    if HARNESS != HARNESS_SRC:
+        _materialise_harness()
+    lock_dst = os.path.join(HARNESS, "Cargo.lock")
+    if not os.path.exists(lock_dst) and os.path.exists(os.path.join(REPO, "Cargo.lock")):
+        shutil.copy(os.path.join(REPO, "Cargo.lock"), lock_dst)
+    env = dict(os.environ)
+    env.update({"CARGO_TARGET_DIR": os.path.join(TARGET, "miri"), "CARGO_NET_OFFLINE": "true",
+                "MIRIFLAGS": "-Zmiri-disable-isolation -Zmiri-tree-borrows", "XDG_CONFIG_HOME": os.path.join(WORK, "xdg-empty")})
+    env.pop("MathCATRulesDir", None)
+    env.update(env_extra or {})
+    os.makedirs(env["XDG_CONFIG_HOME"], exist_ok=True)
+    script = "".join(json.dumps(o, ensure_ascii=True) + "\n" for o in list(ops) + [{"op": "quit"}])
+    try:
+        p = subprocess.run(["cargo", "+nightly", "miri", "run", "--offline"], cwd=HARNESS, env=env, input=script.encode("ascii"),
+                           stdout=subprocess.PIPE, stderr=subprocess.PIPE, timeout=timeout)
+    except subprocess.TimeoutExpired as e:
+        return [], (e.stderr or b"").decode("utf-8", "replace")[-4000:], None
+    results = []
+    for line in p.stdout.decode("utf-8", "replace").splitlines():
+        try:
+            results.append(json.loads(line))
+        except ValueError:
+            pass
+    return results, p.stderr.decode("utf-8", "replace")[-6000:], p.returncode
+
+
 # --------------------------------------------------------------------------------------------
 # seeds, hashing
 # --------------------------------------------------------------------------------------------
